@@ -1,4 +1,5 @@
 import QuicModel.Drivers.VarInt
 namespace Quic.Drivers
-def all : List Component := [varint, varintRfc]
+def all : List Component :=
+  VarInt.components
 end Quic.Drivers
